@@ -821,6 +821,42 @@ func c10Run(c *Ctx, l, r *c10ADoc, shape, via string, minSim float64) {
 	}
 	c.Tie(req.String(), obs)
 
+	// (T2) the whole merged document against the composed model (C11 results -> C09 MergeNodes on
+	// the fact subtrees -> MergeNodeSlices on the other records), records in order
+	posOf := func(doc *gedcom.Document) map[string]int {
+		m := map[string]int{}
+		n := 0
+		for _, rec := range doc.Nodes() {
+			if rec.Tag().Tag() != "INDI" {
+				continue
+			}
+			for _, k := range rec.Nodes() {
+				if k.Tag().Tag() == "_MARK" {
+					m[k.Value()] = n
+				}
+			}
+			n++
+		}
+		return m
+	}
+	// fresh decodes: the merge passes unmatched individuals through by reference, the inputs must
+	// be described as they were
+	lp, rp := posOf(ld), posOf(rd)
+	var req2 strings.Builder
+	fmt.Fprintf(&req2, "mergedocs %d", len(ms))
+	for _, m := range ms {
+		switch {
+		case m.L >= 0 && m.R >= 0:
+			fmt.Fprintf(&req2, " B %d %d", lp[l.Indis[m.L].Marker], rp[r.Indis[m.R].Marker])
+		case m.L >= 0:
+			fmt.Fprintf(&req2, " L %d", lp[l.Indis[m.L].Marker])
+		default:
+			fmt.Fprintf(&req2, " R %d", rp[r.Indis[m.R].Marker])
+		}
+	}
+	req2.WriteString(" " + encForest(abstractNodes(ld.Nodes())) + " " + encForest(abstractNodes(rd.Nodes())))
+	c.Tie(req2.String(), "ok legal="+bit(re.String() == text)+" "+encForest(abstractNodes(out.Nodes())))
+
 	switch {
 	case len(l.Indis)+len(r.Indis) == 0:
 		c.Count("people=0")
